@@ -125,6 +125,18 @@ class Driver:
     def case_head(self):
         return self.ctor
 
+    default_attr = None       # attribute of objects not referenced by a single-object slot
+
+    def racy(self, obj, H):
+        """after system_stop: a real daemon thread that was not joined may or may not have ended yet"""
+        if not isinstance(obj, H.RecThread) or not obj.daemon or not obj.is_started():
+            return False
+        attr = self.default_attr
+        for _, a, o in self.slots():
+            if o is obj:
+                attr = a
+        return 'AJoin' not in self.stop_table.get(attr, ())
+
 
 class TotalPower(Driver):
     sim, ctor = 'totalpower', 'LTp'
@@ -134,8 +146,7 @@ class TotalPower(Driver):
         import simulators.totalpower as m
         self.m = m
         self.world.refuse_ports = {self.BAD_PORT}
-        return [(m, 'Timer', H.VTimer), (m, 'socket', H.socket_proxy()),
-                (m, 'time', __import__('types').SimpleNamespace(time=self.world.time))]
+        return H.auto_patches(self.world, [m], virtual_time=True)
 
     def build(self):
         self.s = self.m.System(**self.config)
@@ -212,7 +223,7 @@ class Mscu(Driver):
         import simulators.mscu as m
         import simulators.mscu.servo as sv
         self.m = m
-        return [(sv, 'Timer', H.VTimer)]
+        return H.auto_patches(self.world, [m, sv])
 
     def build(self):
         self.s = self.m.System()
@@ -268,7 +279,7 @@ class MinorServos(Driver):
     def patches(self, H):
         import simulators.minor_servos as m
         self.m = m
-        return [(m, 'threading', H.threading_proxy()), (m, 'HTTPServer', H.FakeHTTPServer)]
+        return H.auto_patches(self.world, [m])
 
     def build(self):
         self.rest = bool(self.config.get('rest_api', False))
@@ -360,12 +371,13 @@ class MinorServos(Driver):
 
 class Acu(Driver):
     sim, ctor = 'acu', 'LAcu'
+    default_attr = 'command_threads'
     observe_alive_before_stop = False     # command threads end on their own, in real time
 
     def patches(self, H):
         import simulators.acu as m
         self.m = m
-        return [(m, 'Thread', H.RecThread)]
+        return H.auto_patches(self.world, [m])
 
     def build(self):
         self.s = self.m.System()
@@ -417,7 +429,7 @@ class ActiveSurface(Driver):
     def patches(self, H):
         import simulators.active_surface as m
         self.m = m
-        return [(m, 'Thread', H.RecThread)]
+        return H.auto_patches(self.world, [m])
 
     def build(self):
         self.s = self.m.System(**self.config)
@@ -461,7 +473,7 @@ class Plain(Driver):
 
     def patches(self, H):
         self.m = importlib.import_module(self.module)
-        return []
+        return H.auto_patches(self.world, [self.m])
 
     def build(self):
         self.s = self.m.System(**self.config)
@@ -501,13 +513,28 @@ def make_driver(spec):
 # ---------------------------------------------------------------------------------------------
 # running one history
 
+def stop_table(sim):
+    from gen import ldg_ledger
+    if not hasattr(stop_table, 'cache') or stop_table.cache[0] != REPO:
+        stop_table.cache = (REPO, {u.name: u.stop for u in ldg_ledger.analyse(REPO)})
+    return stop_table.cache[1].get(sim, {})
+
+
 def run_history(spec, actions, drain=True):
     """execute `actions` (the list contains ['stop'] entries) on a fresh instance.
     returns dict(term=Coq case, failures=[(klass, what)], created=int, events=int)"""
     from props import ldg_harness as H
     d = make_driver(spec)
     d.world = world = H.World()
+    try:
+        d.stop_table = stop_table(d.sim)
+    except Exception:      # the translator failed (reported by gen): no table to consult
+        d.stop_table = {}
     failures = []
+
+    def force(o):
+        return d.racy(o, H)
+
     steps = []
     threads_before = set(threading.enumerate())
     for cls in (H.VTimer, H.RecThread, H.FakeSocket, H.FakeHTTPServer):
@@ -530,7 +557,7 @@ def run_history(spec, actions, drain=True):
                             failures.append(('stop_raises', 'system_stop raised %s' % type(ex).__name__))
                         stopped = True
                         ev = d.stop_event()
-                        o = H.observe(world, d.slots(), True)
+                        o = H.observe(world, d.slots(), True, force)
                         steps.append('(%s, %s)' % (ev, obs_term(o, reply if isinstance(reply, str) else '')))
                         if reply != ACK:
                             failures.append(('stop_reply', 'system_stop returned %r' % (reply,)))
@@ -547,7 +574,8 @@ def run_history(spec, actions, drain=True):
                     ev = d.apply(a, H)
                     if ev is None:
                         continue
-                    o = H.observe(world, d.slots(), d.observe_alive_before_stop or stopped)
+                    o = H.observe(world, d.slots(), d.observe_alive_before_stop or stopped,
+                                  force if stopped else None)
                     steps.append('(%s, %s)' % (ev, obs_term(o)))
                 if stopped and drain:
                     # oracle only: every timer chain ends once stopped
@@ -601,9 +629,13 @@ def with_stop(rng, acts, tail_gen):
 
 def plain_specs(ctx):
     out = []
-    for u in units(ctx):
-        if u.sites or u.name.startswith('backend'):
-            continue
+    try:
+        us = units(ctx)
+    except Exception:     # the translator failed closed (already reported by gen): no sweep list
+        return out
+    for u in us:
+        if u.name in DRIVERS or u.name.startswith('backend'):
+            continue      # a unit that acquired creation sites stays in the sweep: the oracle must see it
         module = 'simulators.' + u.mod.rel[:-3].replace('/__init__', '').replace('/', '.')
         out.append(dict(sim=u.name, module=module, config={}))
     return out
@@ -612,7 +644,7 @@ def plain_specs(ctx):
 def histories(ctx, rng, scale):
     """[(spec, actions)]"""
     out = []
-    for _ in range(40 * scale):
+    for _ in range(60 * scale):
         n = rng.choice([3, 6, 10, 16, 24, 40])
         out.append((dict(sim='totalpower', config={'channels': rng.choice([14, 4])}),
                     with_stop(rng, TotalPower.gen_actions(rng, n), TotalPower.gen_actions)))
@@ -623,18 +655,33 @@ def histories(ctx, rng, scale):
                           [['cmd', 'stop'], ['cmd', 'resume']], [['cmd', 'stop'], ['cmd', 'X 1000 0 0 127.0.0.1 5002'],
                                                                  ['tick', False]]])
         out.append((dict(sim='totalpower', config={}), pre + mid + [['stop']] + [['tick', False]] * rng.randrange(0, 3)))
-    for _ in range(14 * scale):
+    for _ in range(24 * scale):
         out.append((dict(sim='mscu'), with_stop(rng, Mscu.gen_actions(rng, rng.choice([2, 5, 9, 15])),
                                                 Mscu.gen_actions)))
-    for i in range(14 * scale):
-        cfg = {'rest_api': i % 4 == 0, 'timer_value': rng.choice([5, 1, 0.5])}
+    for i in range(30 * scale):
+        cfg = {'rest_api': i % 5 == 0, 'timer_value': rng.choice([5, 1, 0.5])}
         out.append((dict(sim='minor_servos', config=cfg),
                     with_stop(rng, MinorServos.gen_actions(rng, rng.choice([2, 5, 9, 15])),
                               MinorServos.gen_actions)))
-    for _ in range(max(2, scale)):
+    # directed: the same attribute armed twice in a row (overwrite of a pending timer), then stop
+    for _ in range(3 * scale):
+        a, b = rng.sample(MinorServos.CONFS, 2)
+        sv = rng.choice(MinorServos.SERVOS)
+        p, q = rng.sample([1, 2, 3, 4], 2)
+        pre = rng.choice([[['cmd', 'SETUP=%s' % a], ['cmd', 'SETUP=%s' % b]],
+                          [['cmd', 'STOW=%s,1' % sv], ['cmd', 'STOW=%s,1' % sv]],
+                          [['cmd', 'STOW=GREGORIAN_CAP,%d' % p], ['cmd', 'STOW=GREGORIAN_CAP,%d' % q]],
+                          [['cmd', 'SETUP=%s' % a], ['cmd', 'STOW=GREGORIAN_CAP,%d' % q]],
+                          [['cmd', 'STOW=GREGORIAN_CAP,%d' % q], ['cmd', 'SETUP=%s' % a], ['cmd', 'SETUP=%s' % b]]])
+        out.append((dict(sim='minor_servos', config={'rest_api': False}),
+                    pre + [['tick', False]] * rng.randrange(0, 2) + [['stop']] + [['tick', False]] * rng.randrange(0, 3)))
+        k = rng.randrange(4)
+        out.append((dict(sim='mscu'), [['cmd', '#setup:0=%d\r\n' % k]] * rng.randrange(1, 4)
+                    + [['cmd', '#setup:0=%d\r\n' % ((k + 1) % 4)]] + [['stop']]))
+    for _ in range(max(3, scale)):
         acts = Acu.gen_actions(rng, rng.choice([1, 3, 5]))
         out.append((dict(sim='acu'), acts + [['stop']] + ([['stop']] if rng.random() < 0.3 else [])))
-    for _ in range(max(1, scale // 2)):
+    for _ in range(max(2, scale // 2)):
         lo = rng.randrange(0, 30)
         out.append((dict(sim='active_surface', config={'min_usd_index': lo, 'max_usd_index': rng.randrange(lo, 32)}),
                     ActiveSurface.gen_actions(rng, 4) + [['stop']]))
@@ -722,19 +769,136 @@ def oracle(ctx):
         checked += 1
         for klass, what in r['failures']:
             found.append((klass, what, spec, acts))
+    reals = []
+    for sim in ('totalpower', 'mscu', 'minor_servos'):
+        for wait in ([False, True] if (sim == 'totalpower' and not ctx.quick()) else [False]):
+            checked += 1
+            try:
+                res = run_real(sim, wait)
+            except Exception as ex:    # no loopback networking etc.: the virtual runs still decide
+                ctx.note('real smoke run of %s skipped: %s: %s' % (sim, type(ex).__name__, ex))
+                continue
+            for klass, what in res:
+                reals.append((klass, what, sim, wait))
     seen = set()
+    for klass, what, sim, wait in reals:
+        if klass not in {k for k, _, _, _ in found} and klass not in seen:
+            seen.add(klass)
+            ctx.fail(klass, what, dict(real=True, sim=sim, wait=wait))
     for klass, what, spec, acts in found:
         if klass in seen:
             continue
         seen.add(klass)
         small = shrink(spec, acts, klass)
         ctx.fail(klass, what, dict(spec=spec, actions=small))
-    ctx.oracle_stats = dict(histories=checked + len(getattr(ctx, '_c07_failures', [])) * 0,
-                            failing_classes=sorted(seen))
+    stats = dict(histories=checked, failing_classes=sorted(seen))
+    if isinstance(ctx.oracle_stats, dict):
+        ctx.oracle_stats.update(stats)
+    else:
+        ctx.oracle_stats = stats
     ctx.evaluations += checked
 
 
+# ---------------------------------------------------------------------------------------------
+# runtime smoke runs: no fakes, real Timers / sockets / HTTP server on loopback ephemeral ports.
+# They check what the ledger cannot: that the joins of system_stop return and the threads are gone.
+
+def run_real(sim, wait_first_packet=False):
+    import socket
+    import time
+    failures = []
+    before = set(threading.enumerate())
+    t0 = time.time()
+    s = None
+    sink = conn = None
+    try:
+        if sim == 'totalpower':
+            import simulators.totalpower as m
+            sink = socket.socket()
+            sink.bind(('127.0.0.1', 0))
+            sink.listen(1)
+            sink.settimeout(5)
+            s = m.System()
+            feed_real(s, 'X 1000 0 0 127.0.0.1 %d\n' % sink.getsockname()[1])
+            conn, _ = sink.accept()
+            feed_real(s, 'resume\n')
+            if wait_first_packet:
+                conn.settimeout(5)
+                conn.recv(65536)
+        elif sim == 'mscu':
+            import simulators.mscu as m
+            s = m.System()
+            feed_real(s, '#setup:0=1\r\n')
+            feed_real(s, '#setup:0=1\r\n')
+            feed_real(s, '#setup:0=3\r\n')
+        elif sim == 'minor_servos':
+            import simulators.minor_servos as m
+            saved = m.httpserver_address
+            m.httpserver_address = ('127.0.0.1', 0)
+            try:
+                s = m.System(rest_api=True)
+            finally:
+                m.httpserver_address = saved
+            feed_real(s, 'SETUP=Gregoriano1\r\n')
+            feed_real(s, 'STOW=PFP,1\r\n')
+            feed_real(s, 'STOW=GREGORIAN_CAP,2\r\n')
+        else:
+            raise ValueError(sim)
+        result = {}
+
+        def do_stop():
+            try:
+                result['reply'] = s.system_stop()
+            except Exception as ex:
+                result['error'] = type(ex).__name__
+        th = threading.Thread(target=do_stop, daemon=True)
+        th.start()
+        th.join(20)
+        if th.is_alive():
+            failures.append(('join_hangs', 'system_stop did not return within 20 s (real threads)'))
+        elif 'error' in result:
+            failures.append(('stop_raises', 'system_stop raised %s (real threads)' % result['error']))
+        elif result.get('reply') != ACK:
+            failures.append(('stop_reply', 'system_stop returned %r' % (result.get('reply'),)))
+        if not th.is_alive():
+            alive = [t for t in threading.enumerate() if t not in before and t is not th and not t.daemon]
+            if alive:
+                failures.append(('nondaemon_alive_after_stop',
+                                 'non-daemon threads alive after system_stop (real threads): %s'
+                                 % sorted(type(t).__name__ for t in alive)))
+            if sim == 'totalpower' and s.data_socket is not None and s.data_socket.fileno() != -1:
+                failures.append(('socket_open_after_stop', 'data_socket still open after system_stop (real socket)'))
+    finally:
+        # leave nothing behind in the checking process
+        try:
+            if s is not None and hasattr(s, 'stop'):
+                s.stop.value = True
+            for t in threading.enumerate():
+                if t not in before and hasattr(t, 'cancel'):
+                    t.cancel()
+            if sim == 'minor_servos' and s is not None and getattr(s, 'rest_api', False):
+                threading.Thread(target=s.httpserver.shutdown, daemon=True).start()
+                s.httpserver.server_close()
+        except Exception:
+            pass
+        for x in (conn, sink):
+            if x is not None:
+                x.close()
+    return [('%s_%s' % (sim, k), w) for k, w in failures]
+
+
+def feed_real(system, text):
+    for ch in text:
+        try:
+            system.parse(ch)
+        except Exception:
+            pass
+
+
 def replay(ctx, obj):
+    w = obj.get('witness') or {}
+    if w.get('real'):
+        return any(k == obj.get('klass') for k, _ in run_real(w['sim'], w.get('wait', False)))
     w = obj.get('witness') or {}
     if 'spec' not in w:
         return False
